@@ -8,6 +8,7 @@ import (
 	"path/filepath"
 	"regexp"
 	"sort"
+	"strconv"
 	"strings"
 )
 
@@ -179,9 +180,98 @@ func genC15() {
 	if fd := findFunc("pkg/build/sbom.go", "", "readReleaseData"); fd != nil {
 		g.def("release_sets_scanner_buffer", "bool", fmt.Sprint(usesSel(fd, "Buffer")), "readReleaseData calls Scanner.Buffer (false: bufio.MaxScanTokenSize = 64 KiB applies)")
 		g.def("release_checks_scanner_err", "bool", fmt.Sprint(usesSel(fd, "Err")), "readReleaseData looks at scanner.Err()")
-		g.def("release_cut_sep", "string", coqStr(firstLit("readReleaseData: strings.Cut", callLits(fd, "strings.Cut"))), "separator of strings.Cut")
-		g.def("release_trim_cutset", "string", coqStr(firstLit("readReleaseData: strings.Trim", callLits(fd, "strings.Trim"))), "cutset of strings.Trim")
-		g.def("release_comment_prefix", "string", coqStr(firstLit("readReleaseData: strings.HasPrefix", callLits(fd, "strings.HasPrefix"))), "prefix of skipped lines")
+		// the pinned facts are the LITERALS and what they are used for, not the names of the calls:
+		//   split at the first separator = strings.Cut | strings.Index / IndexByte (+ slices) | strings.SplitN(_, lit, 2)
+		//   cutset trimmed from both ends = strings.Trim | TrimLeft + TrimRight | a HasPrefix loop and a HasSuffix loop over the same literal
+		//   prefix of skipped lines       = an `if` whose body is `continue`: strings.HasPrefix(_, lit) | _[0] == 'c'
+		// an unrecognised spelling becomes "other:…": only C15's own pin (c15_sites_pinned / the proofs that use it) notices
+		litText := func(e ast.Expr) (string, bool) {
+			if v, ok := strLit(e); ok {
+				return v, true
+			}
+			if bl, ok := e.(*ast.BasicLit); ok && bl.Kind == token.CHAR {
+				if r, _, _, err := strconv.UnquoteChar(strings.Trim(bl.Value, "'"), '\''); err == nil {
+					return string(r), true
+				}
+			}
+			return "", false
+		}
+		callLit := func(n ast.Node, fns ...string) (string, bool) {
+			found, ok := "", false
+			ast.Inspect(n, func(m ast.Node) bool {
+				c, isCall := m.(*ast.CallExpr)
+				if !isCall || ok {
+					return true
+				}
+				for _, fn := range fns {
+					if exprText(c.Fun) == fn {
+						for _, a := range c.Args[1:] {
+							if v, isLit := litText(a); isLit {
+								found, ok = v, true
+								return true
+							}
+						}
+					}
+				}
+				return true
+			})
+			return found, ok
+		}
+		sep := "other:no split at a separator literal recognised"
+		if v, ok := callLit(fd, "strings.Cut"); ok {
+			sep = v
+		} else if v, ok := callLit(fd, "strings.Index", "strings.IndexByte", "strings.IndexRune", "strings.SplitN"); ok {
+			sep = v
+		}
+		cutset := "other:no trimming of both ends by a literal recognised"
+		if v, ok := callLit(fd, "strings.Trim"); ok {
+			cutset = v
+		} else {
+			l, okl := callLit(fd, "strings.TrimLeft", "strings.TrimPrefix")
+			r, okr := callLit(fd, "strings.TrimRight", "strings.TrimSuffix")
+			if !okl || !okr {
+				// loops `for strings.HasPrefix(v, lit) { … }` / `for strings.HasSuffix(v, lit) { … }`
+				ast.Inspect(fd, func(m ast.Node) bool {
+					if fs, isFor := m.(*ast.ForStmt); isFor && fs.Cond != nil {
+						if v, ok := callLit(fs.Cond, "strings.HasPrefix"); ok {
+							l, okl = v, true
+						}
+						if v, ok := callLit(fs.Cond, "strings.HasSuffix"); ok {
+							r, okr = v, true
+						}
+					}
+					return true
+				})
+			}
+			if okl && okr && l == r {
+				cutset = l
+			}
+		}
+		comment := "other:no skipped-line prefix recognised"
+		ast.Inspect(fd, func(m ast.Node) bool {
+			is, isIf := m.(*ast.IfStmt)
+			if !isIf || strings.HasPrefix(comment, "other:") == false || len(is.Body.List) != 1 {
+				return true
+			}
+			if bs, isBr := is.Body.List[0].(*ast.BranchStmt); !isBr || bs.Tok != token.CONTINUE {
+				return true
+			}
+			if v, ok := callLit(is.Cond, "strings.HasPrefix"); ok {
+				comment = v
+			} else if be, isBin := is.Cond.(*ast.BinaryExpr); isBin && be.Op == token.EQL {
+				if ie, isIdx := be.X.(*ast.IndexExpr); isIdx {
+					if z, isZ := intLit(ie.Index); isZ && z == 0 {
+						if v, ok := litText(be.Y); ok {
+							comment = v
+						}
+					}
+				}
+			}
+			return true
+		})
+		g.def("release_cut_sep", "string", coqStr(sep), "separator of strings.Cut")
+		g.def("release_trim_cutset", "string", coqStr(cutset), "cutset of strings.Trim")
+		g.def("release_comment_prefix", "string", coqStr(comment), "prefix of skipped lines")
 		defSites("release", fd.Body, "readReleaseData")
 	}
 
@@ -222,8 +312,26 @@ func genC15() {
 			if cp := callLits(fd, "strings.CutPrefix"); len(hp) == 0 && len(tp) == 0 && len(cp) == 1 && len(cp[0]) == 1 {
 				hp, tp = cp, cp
 			}
+			// ... and so is HasPrefix(s, lit) followed by s[len(lit):] / s[<length of lit>:]
+			if len(hp) == 1 && len(hp[0]) == 1 && len(tp) == 0 {
+				ast.Inspect(fd, func(m ast.Node) bool {
+					se, ok := m.(*ast.SliceExpr)
+					if !ok || se.High != nil || se.Low == nil {
+						return true
+					}
+					if v, ok := intLit(se.Low); ok && int(v) == len(hp[0][0]) {
+						tp = hp
+					} else if c, ok := se.Low.(*ast.CallExpr); ok && exprText(c.Fun) == "len" && len(c.Args) == 1 {
+						if l, ok := strLit(c.Args[0]); ok && l == hp[0][0] {
+							tp = hp
+						}
+					}
+					return true
+				})
+			}
 			if len(hp) != 1 || len(hp[0]) != 1 || len(tp) != 1 || len(tp[0]) != 1 {
-				fail("%s: checksumFromHeader: expected one strings.HasPrefix and one strings.TrimPrefix with a literal (or one strings.CutPrefix)", rel)
+				// an unrecognised spelling: a changed-shape fact that only C15's pin (c15_checksum_header_copies_pinned) notices
+				rows = append(rows, fmt.Sprintf("(%s, (%s, %s, %s))", coqStr(rel), coqStr("other:prefix test not recognised"), coqStr("other:prefix removal not recognised"), coqStrList(sorted(sites(fd.Body)))))
 				continue
 			}
 			rows = append(rows, fmt.Sprintf("(%s, (%s, %s, %s))", coqStr(rel), coqStr(hp[0][0]), coqStr(tp[0][0]), coqStrList(sorted(sites(fd.Body)))))
